@@ -984,6 +984,8 @@ def renormalised(ctx, body):
     needs = False
     for c in body.calls:
         if (c.trait or '') == 'std::iter::Iterator' and c.item in ('try_fold', 'fold', 'for_each', 'try_for_each', 'find', 'find_map', 'any', 'all', 'position', 'map', 'filter', 'filter_map'): needs = True
+        if re.search(r'option::Option::<.*?>::(map|and_then|or_else|unwrap_or_else)::<|result::Result::<.*?>::(map|and_then)::<', c.name): needs = True
+    # helpers that the normal form inlined may contain such calls as well: they are in `body` already (it is the inlined form)
     if not needs: return body
     try:
         from .. import normalize
@@ -1007,6 +1009,65 @@ def renormalised(ctx, body):
                     if d is not None and d[0] == 'stmt' and d[2]['rv']['k'] == 'ref' and d[2]['rv']['pl']['p'] in ([], ['*']): local = d[2]['rv']['pl']['l']
                     else: break
                 return normalize.Normalizer._walk_chain(self, rw, local)
+
+            def _normalize(self, d):
+                d2 = normalize.Normalizer._normalize(self, d)
+                if d2.get('kind') == 'promoted': return d2
+                rw = normalize.Rewriter(d2); rw.promoted_of = self._promoted_of
+                for _ in range(30):
+                    if not self._desugar_option(rw): break
+                return rw.d if rw.changed else d2
+
+            def _desugar_option(self, rw):
+                """`opt.map(f)` / `and_then(f)` / `or_else(f)` / `unwrap_or_else(f)` with a closure  ->  the `match opt { Some(x) => .., None => .. }` it
+                abbreviates, closure body spliced in (the class "combinator instead of match")"""
+                from ..normalize import _use, _discr, _agg, _mv, _pl, _const, SOME0
+                for bi in range(len(rw.blocks)):
+                    b = rw.blocks[bi]; t = b['term']
+                    if b['cleanup'] or t['k'] != 'call' or t.get('synthetic') or t['t'] < 0 or len(t['args']) != 2: continue
+                    nm_ = t.get('r') or t.get('f') or ''
+                    m = re.search(r'option::Option::<.*?>::(map|and_then|or_else|unwrap_or_else)::<', nm_)
+                    mr = re.search(r'result::Result::<.*?>::(map|and_then)::<', nm_) if not m else None
+                    if not (m or mr) or t['args'][0]['k'] not in ('copy', 'move'): continue
+                    ci = self._closure_of(rw, t['args'][1])
+                    if ci is None: continue
+                    cd, caps = ci
+                    kind = (m or mr).group(1); span = t.get('span'); line = (span or {}).get('lo', 0); dst = t['dst']; after = t['t']
+                    want_args = 2 if kind in ('map', 'and_then') else 1
+                    if cd['argc'] != want_args: continue
+                    tmp = rw.new_local('?option' if m else '?result'); dl = rw.new_local('isize')
+                    b['st'].append(_use(tmp, t['args'][0], line)); b['st'].append(_discr(dl, _pl(tmp), line))
+                    some = rw.new_block(); none = rw.new_block(); un = rw.new_block()
+                    B = rw.blocks
+                    if mr:
+                        # res.map(f) == match res { Ok(x) => Ok(f(x)), Err(e) => Err(e) };  res.and_then(f) == match res { Ok(x) => f(x), Err(e) => Err(e) }
+                        OK0 = [{'dc': 'Ok'}, {'f': '0', 'of': 'std::result::Result::Ok'}]; ERR0 = [{'dc': 'Err'}, {'f': '0', 'of': 'std::result::Result::Err'}]
+                        b['term'] = {'k': 'switch', 'd': _mv(dl), 'ts': [[0, some], [1, none]], 'else': un}
+                        r = rw.new_local(cd['locals'][0]); nxt = rw.new_block()
+                        e = rw.splice(cd, [_const('()', 'env'), _mv(tmp, OK0)], _pl(r), nxt, span, captures=caps)
+                        rw.goto(some, e)
+                        if kind == 'map': B[nxt]['st'].append(_agg(dst, 'std::result::Result::Ok', [_mv(r)], line=line))
+                        else: B[nxt]['st'].append(_use(dst, _mv(r), line))
+                        rw.goto(nxt, after)
+                        B[none]['st'].append(_agg(dst, 'std::result::Result::Err', [_mv(tmp, ERR0)], line=line)); rw.goto(none, after)
+                        rw.changed = True
+                        return True
+                    b['term'] = {'k': 'switch', 'd': _mv(dl), 'ts': [[0, none], [1, some]], 'else': un}
+                    if kind in ('map', 'and_then'):
+                        r = rw.new_local(cd['locals'][0]); nxt = rw.new_block()
+                        e = rw.splice(cd, [_const('()', 'env'), _mv(tmp, SOME0)], _pl(r), nxt, span, captures=caps)
+                        rw.goto(some, e)
+                        if kind == 'map': B[nxt]['st'].append(_agg(dst, 'std::option::Option::Some', [_mv(r)], line=line))
+                        else: B[nxt]['st'].append(_use(dst, _mv(r), line))
+                        rw.goto(nxt, after)
+                        B[none]['st'].append(_agg(dst, 'std::option::Option::None', [], line=line)); rw.goto(none, after)
+                    else:
+                        B[some]['st'].append(_use(dst, _mv(tmp) if kind == 'or_else' else _mv(tmp, SOME0), line)); rw.goto(some, after)
+                        e = rw.splice(cd, [_const('()', 'env')], dst, after, span, captures=caps)
+                        rw.goto(none, e)
+                    rw.changed = True
+                    return True
+                return False
 
         N = Wider(raw, known, True)
         d = N.body(body.name)
